@@ -29,6 +29,8 @@ def assertion(B, rules, skeleton, out, params):
         # a limit error is a legal outcome of a limited op (C15 covers its aftermath); anything else is not
         parts.append((f"op {k} {ent['kind']}: no unexpected exception ({exc}: {ent['rec'].get('msg')})", B.const(exc is None)))
     completed = last["rec"]["exc"] is None and (last["kind"] in ("skiprem", "skipall") or last["rec"]["ret"] is True)
+    if last["kind"] in ("bfs", "dfs", "minp", "aseeds") and (last["op"] is None or last["op"].get("node") not in (None, 0)):
+        completed = False      # the statement is about strategies started at the root
     if last["kind"] in FINAL_ANY:
         parts.append((f"{last['kind']} without limits reports completion", B.const(last["rec"]["ret"] is True)))
     if completed:
@@ -38,7 +40,7 @@ def assertion(B, rules, skeleton, out, params):
         leaves = [n["id"] for n in nodes.values() if n["expanded"] and not oe[n["id"]]]
         parts.append(("minimal_trap_spaces() lists the expanded leaves", B.const(sorted(leaves) == out["mts"])))
         parts += specs.leaves_are_mintraps(B, dump, require_all_expanded=False)
-        if last["kind"] in ("skiprem", "skipall", "fullbfs", "fulldfs"):
+        if last["kind"] in ("skiprem", "skipall", "fullbfs", "fulldfs", "bfs", "dfs"):
             parts.append(("no unexpanded node remains", B.const(all(n["expanded"] for n in nodes.values()))))
     return parts
 
@@ -75,6 +77,15 @@ def tasks(tier, seed, selftest=False):
             S.append(dict(family="U2", skeleton=(p, f), timebox=12 if q else 900))
             if not q:
                 S.append(dict(family="D3", skeleton=(p, f), timebox=200))
+    # limited strategies (symbolic limits) that nevertheless report completion, after a limited prefix; deep diagrams
+    # need several independent switches (product family)
+    for p in ("bfs", "dfs", "succ"):
+        for f in ("bfs", "dfs", "minp", "aseeds"):
+            S.append(dict(family="U2", skeleton=(p, f), timebox=8 if q else 600))
+            S.append(dict(family="P:SW2+SW2+U1", skeleton=(p, f), timebox=12 if q else 600))
+            if not q:
+                S.append(dict(family="P:SW2+SW2+SW2", skeleton=(p, f), timebox=600))
+                S.append(dict(family="D3", skeleton=(p, f), timebox=300))
     if not q:
         for f in ("fullbfs", "fmin", "block", "scc"):
             S.append(dict(family="U3", skeleton=(f,), timebox=600, cube_k=5, nbits=24))
